@@ -6,7 +6,7 @@
    asked for); tok_ok t excludes RErr and RData 0; read_stream calls Reader::read_with until Ok(None) or an
    error other than Error::Decode; decode_outcome p = Ok(Some v) if dec p = Some v, Err(Decode) otherwise;
    fits max p = |p| <= max /\ |p| < 2^32. *)
-From MC Require Import Bytes FrameIo FrameIoFacts.
+From MC Require Import Bytes Monad Decoder Types TypesEnc TypesFacts FrameIo FrameIoFacts FrameIoTypes.
 Local Open Scope N_scope.
 
 (* Every list of payloads, every fair fragmentation with Interrupted errors interleaved: the reader returns
@@ -120,3 +120,15 @@ Print Assumptions C14_alloc.
 Print Assumptions C14_end_to_end.
 Print Assumptions C14_frame_u32.
 Print Assumptions C14_writer_no_panic.
+
+(* End to end with the real value codec (Proofs/FrameIoTypes.v): `dec` instantiated with the built-in Decode impls as
+   minicbor::decode runs them on a payload (dec_of c t), the payloads being what the built-in Encode impls write for a list of
+   values of type t (payloads_of; C01's hypotheses ty_ok / rt_ok): the reader yields exactly the written values, in order,
+   then a clean end — in every feature configuration c, under every fair fragmentation with Interrupted errors interleaved. *)
+Theorem C14_values_roundtrip : forall c t vs ps max sched buf0 peak calls,
+  ty_ok t = true -> rt_ok t = true -> payloads_of t vs ps -> Forall (fits max) ps -> Forall tok_ok sched ->
+  exists r' s',
+    read_stream value (dec_of c t) (mkreader buf0 max peak) (mksrc (stream_of ps) sched calls) = (map OVal vs ++ [OEnd], r', s')
+    /\ s_data s' = [].
+Proof. exact fio_values_roundtrip. Qed.
+Print Assumptions C14_values_roundtrip.
